@@ -47,6 +47,9 @@ func registerExtras() {
 	// the example runs watch-only nodes and a blocked validator in one process: a panic of the library on a watch-only
 	// node (index -1) or a payload broadcast by it stops / disturbs the whole simulation — seed C17r3-3
 	propertyRules["C17"] = append(propertyRules["C17"], ruleIdx, ruleGSilent, rulePhaseProgress)
+	// "the view's designated primary" is what GetPrimaryIndex computes: admission of proposals (C04, C11) rests on it
+	propertyRules["C11"] = append(propertyRules["C11"], ruleArithPrimary, rulePrimaryField)
+	propertyRules["C04"] = append(propertyRules["C04"], ruleArithPrimary, rulePrimaryField)
 }
 
 // L1-OBL: the state lemma "own (pre)commit / own preparation ⇒ proposal recorded" is an invariant: every non-nil store
